@@ -19,7 +19,7 @@ IDS_QUICK = ['int-0-7', 'int-m5-300', 'int-ext', 'int-min', 'int-max', 'int-sing
              'int-refchain', 'octets-fixed', 'octets-range', 'octets-ext', 'bits-fixed', 'bits-range',
              'bits-named-size', 'seqof-size', 'seqof-fixed', 'seqof-ext', 'ia5-size', 'ia5-from', 'ia5-from5',
              'visible', 'numeric', 'bmp', 'utf8-size', 'c11-nested', 'c11-minmax', 'c11-ref', 'c11-named',
-             'c11-size-valref', 'c11-strings', 'c11-ext', 'seq-opt', 'choice-ext']
+             'c11-size-valref', 'c11-strings', 'c11-ext', 'seq-opt', 'choice-ext', 'shared-range', 'shared-size']
 IDS_MORE = ['combo-uper6', 'combo-choice-seq', 'combo-ref', 'combo-ext-nest', 'combo-depth3', 'int-u32',
             'int-s64', 'int-0-255', 'int-1-256', 'int-0-65536', 'printable', 'universal', 'seq-ext-group']
 
